@@ -527,7 +527,7 @@ PROPS["C06"] = {
             "EVERY table access of that call the history is re-run with the age-based commit forced right before that access, "
             "and after every call from there on the database file is copied without commit, reopened and observed; a case is "
             "one crash image; distinct_nontrivial counts crash images (each is a distinct (history, commit placement, call))",
-    "assumptions": ["redb's own crash atomicity (torn pages, fsync ordering) is trusted: images are file copies taken between "
+    "assumptions": ["SyncHandle::shutdown() is treated as a flush point (the actor commits before handing the store back; it is the last point at which an exiting process can have its acknowledged writes made durable): the actor drive images the file right after it returned", "redb's own crash atomicity (torn pages, fsync ordering) is trusted: images are file copies taken between "
                     "two calls of a quiescent single-threaded process",
                     "live states are taken from a baseline run of the same deterministic history (clock pinned by hook H2)"],
     "models": [
